@@ -137,7 +137,7 @@ CHECKS["C09"] = dict(
 CHECKS["C01"] = dict(
    text="Decomposed into (a) barrier (C07, C12, C14), (b) channel (C04, C02, C03, C06), (c) protocol and (d) algebra. Lean 4 theorems here: (c) in every reachable state of a key-generation session - any interleaving, any behaviour of the others - honest parties that complete report identical "
         "public material (public_material_identical = C05 honest_completions_agree); (d) for every field, groups, bilinear pairing, dealing polynomials of degree < t and evaluation points: every set of at least t parties' public keys combine to the same key Q(0) g2 "
-        "(honest_run_material, so the all-subsets check passes and everybody reports that key) and every such set's partial signatures on every message verify under it (threshold_sig_correct). Tie: lockstep differential runs of the real DKG backends; the real full stack "
+        "(honest_run_material, so the all-subsets check passes and everybody reports that key), every such set's partial signatures on every message verify under it (threshold_sig_correct), and the same follows from the all-subsets check alone for arbitrary sharings (checked_sets_sign). Tie: lockstep differential runs of the real DKG backends; the real full stack "
         "(synchroniser, broadcast, msgbox, backends) under random link schedules in loud and silent mode with subset-verification and orchestrated-signing monitors. Completion is observed, not proved. Known finding KF-C01-fastsigner (non-interactive signers).",
    design="4/C01",
    note="Trusted: Lean kernel, Model/Dkg.lean, Model/PsAlgebra.lean, harness; the end-to-end composition of (a)-(d) is by reading and by full-stack runs. Assumed: identity memberships, FIFO links, generous deadlines.",
@@ -146,8 +146,8 @@ CHECKS["C01"] = dict(
 CHECKS["C05"] = dict(
    text="Lean 4 theorems over a key-generation session in which honest parties receive any shares from anybody (different per victim), any commitment and key per sender (the same bytes at every honest receiver: C02/C03), malformed, duplicated, withheld and out-of-phase messages, "
         "cancellation anywhere, in any interleaving: the table of a party only ever holds, per sender, the first value handed over (put_keeps), honest parties that complete report identical public material (honest_completions_agree), a party completes only if every recorded key "
-        "hashes to the recorded commitment of its sender (completed_commitments_match), the own key is emitted only in a wake-up that finds commitments of n-1 distinct senders (reveal_needs_all_commitments, commit_senders_distinct); with Props/C01 checked_subset_signs: "
-        "every set of t completers signs under the reported key. Tie: lockstep differential runs of real BLS and PS backends with an adversary catalogue.",
+        "hashes to the recorded commitment of its sender (completed_commitments_match), the own key is emitted only in a wake-up that finds commitments of n-1 distinct senders (reveal_needs_all_commitments, commit_senders_distinct); with Props/C01 checked_sets_sign (from the all-subsets check alone, by Neville's recursion): "
+        "every set of at least t completers signs under the reported key. Tie: lockstep differential runs of real BLS and PS backends with an adversary catalogue.",
    design="4/C05",
    note="Trusted: Lean kernel, Model/Dkg.lean (tied by dkgstep), harness. Assumed: the broadcast layer's agreement / at-most-once (C02, C03), SHA-256 commitments. Defects repaired earlier and relied on: F11 (wait loops return the context error instead of revealing), F10/F12 (arity checks).",
    technique="Lean 4 proof (inductive invariants over adversarial session interleavings) + lockstep differential correspondence on the real backends")
